@@ -131,7 +131,7 @@ func (pConn *PFCPConn) HandlePFCPMsg(buf []byte) {
 		return
 	}
 
-	nodeID := pConn.nodeID.remote
+	nodeID := pConn.remoteNodeID()
 	// Check for errors in handling the message
 	if err != nil {
 		m.Finish(nodeID, "Failure")
@@ -150,7 +150,7 @@ func (pConn *PFCPConn) HandlePFCPMsg(buf []byte) {
 
 func (pConn *PFCPConn) SendPFCPMsg(msg message.Message) {
 	addr := pConn.RemoteAddr().String()
-	nodeID := pConn.nodeID.remote
+	nodeID := pConn.remoteNodeID()
 	msgType := msg.MessageTypeName()
 
 	m := metrics.NewMessage(msgType, "Outgoing")
